@@ -264,13 +264,22 @@ def ItState.headEnd (st : ItState) : Instant :=
 def Rep (env : Env) (st : ItState) : Prop :=
   st.date < dateEnd ∧ st.sched ≠ [] ∧ ∃ pre, env.schedOf st.date = pre ++ st.sched
 
-/-- the interval-size bound, if any, is at least −1 day and `bound + 1 day` does not overflow `TimeDelta` -/
-def BoundOK (env : Env) : Prop :=
-  ∀ b, env.bound = some b → -nsPerDay ≤ b ∧ b + nsPerDay ≤ deltaMax
-
-/-- the early `return` of `consume_until_next_kind` fires at day `d` -/
+/-- the early `return` of `consume_until_next_kind` fires at day `d`
+(`curr_date − start_date > max(bound, 0) + 1 day`, saturating at `TimeDelta::MAX`) -/
 def Cut (env : Env) (startDate d : Int) : Prop :=
-  ∃ b, env.bound = some b ∧ (d - startDate) * nsPerDay > b + nsPerDay
+  ∃ b, env.bound = some b ∧ (d - startDate) * nsPerDay > boundLimit b
+
+/-- the limit of the loop test is at least one day, whatever the bound (negative, huge) -/
+theorem boundLimit_ge_day (b : Int) : nsPerDay ≤ boundLimit b := by
+  unfold boundLimit
+  split <;> simp only [deltaMax, nsPerDay] at * <;> omega
+
+/-- …and, unless `bound + 1 day` overflows `TimeDelta`, it is `max(bound, 0) + 1 day` -/
+theorem boundLimit_eq {b : Int} (h : max b 0 + nsPerDay ≤ deltaMax) : boundLimit b = max b 0 + nsPerDay := by
+  simp only [boundLimit]; rw [if_neg (by omega)]
+
+theorem boundLimit_sat {b : Int} (h : ¬ max b 0 + nsPerDay ≤ deltaMax) : boundLimit b = deltaMax := by
+  simp only [boundLimit]; rw [if_pos (by omega)]
 
 /-- what `consume_until_next_kind` establishes: everything between the old and the new cursor (below
 `instEnd`) has kind `k`; the cursor never moves back; it moves past the current range if that range
@@ -285,20 +294,14 @@ structure ConsumePost (env : Env) (endDay startDate : Int) (k : Kind) (st st' : 
   fin : (st'.sched = [] ∧ (endDay < st'.date ∨ dateEnd ≤ st'.date))
     ∨ (Rep env st' ∧ ((∀ r rs, st'.sched = r :: rs → r.kind ≠ k) ∨ Cut env startDate st'.date))
 
-theorem boundHit_spec {env : Env} (hb : BoundOK env) (date startDate : Int) :
+theorem boundHit_spec (env : Env) (date startDate : Int) :
     ∃ c : Bool, (match env.bound with
       | none => (.ok false : M Bool)
-      | some b =>
-        if b + nsPerDay > deltaMax ∨ b + nsPerDay < -deltaMax then .error "opening_hours.rs:consume TimeDelta + TimeDelta overflowed"
-        else .ok ((date - startDate) * nsPerDay > b + nsPerDay)) = .ok c ∧ (c = true ↔ Cut env startDate date) := by
+      | some b => .ok ((date - startDate) * nsPerDay > boundLimit b)) = .ok c
+      ∧ (c = true ↔ Cut env startDate date) := by
   cases hbd : env.bound with
   | none => exact ⟨false, rfl, by simp [Cut, hbd]⟩
-  | some b =>
-    obtain ⟨h1, h2⟩ := hb b hbd
-    have h3 : ¬ (b + nsPerDay > deltaMax ∨ b + nsPerDay < -deltaMax) := by
-      simp only [deltaMax, nsPerDay] at *; omega
-    refine ⟨decide ((date - startDate) * nsPerDay > b + nsPerDay), by simp only [if_neg h3], ?_⟩
-    simp [Cut, hbd]
+  | some b => exact ⟨decide ((date - startDate) * nsPerDay > boundLimit b), rfl, by simp [Cut, hbd]⟩
 
 theorem cursor_cons (d : Int) (r : TimeRange) (rs : List TimeRange) :
     ItState.cursor ⟨d, r :: rs⟩ = mkInstant d r.s := rfl
@@ -345,7 +348,7 @@ theorem pointKind_skipped {env : Env} (ok : EnvOK env) {d nd : Int} {pre : List 
   refine pointKind_full_day ok hd' (fun r hr => ?_) e1.2.2.1 e1.2.2.2
   rw [ok.hint_sound d (instDay t) e1.1 (by omega) hd' r hr, hs, lastKind_append_singleton]
 
-theorem consume_spec {env : Env} (ok : EnvOK env) (hb : BoundOK env) (endDay startDate : Int) (k : Kind)
+theorem consume_spec {env : Env} (ok : EnvOK env) (endDay startDate : Int) (k : Kind)
     (st : ItState) (hrep : Rep env st) :
     ∃ st', consume env endDay startDate k st = .ok st' ∧ ConsumePost env endDay startDate k st st' := by
   fun_induction consume env endDay startDate k st with
@@ -357,11 +360,11 @@ theorem consume_spec {env : Env} (ok : EnvOK env) (hb : BoundOK env) (endDay sta
     · refine Or.inr ⟨hrep, Or.inl ?_⟩
       intro r rs h; rw [hs] at h; cases h; exact hk'
   | case3 st tr rest hs hk boundHit p hp =>
-    obtain ⟨c, hc, _⟩ := boundHit_spec hb st.date startDate
+    obtain ⟨c, hc, _⟩ := boundHit_spec env st.date startDate
     have : (Except.error p : M Bool) = .ok c := hp.symm.trans hc
     cases this
   | case4 st tr rest hs hk boundHit hp =>
-    obtain ⟨c, hc, hiff⟩ := boundHit_spec hb st.date startDate
+    obtain ⟨c, hc, hiff⟩ := boundHit_spec env st.date startDate
     have : (Except.ok true : M Bool) = .ok c := hp.symm.trans hc
     cases this
     have hcut : Cut env startDate st.date := hiff.1 rfl
@@ -481,9 +484,10 @@ def reported (env : Env) (start stop' : Instant) : Instant :=
   | some b => if stop' - start > b then instEnd else stop'
   | none => stop'
 
-theorem not_cut_self {env : Env} (hb : BoundOK env) (d : Int) : ¬ Cut env d d := by
-  rintro ⟨b, h1, h2⟩
-  have := (hb b h1).1
+/-- the bound test never fires before the first range is consumed (whatever the bound) -/
+theorem not_cut_self (env : Env) (d : Int) : ¬ Cut env d d := by
+  rintro ⟨b, _, h2⟩
+  have := boundLimit_ge_day b
   simp only [nsPerDay] at *; omega
 
 theorem rep_head {env : Env} (ok : EnvOK env) {st : ItState} (hrep : Rep env st) :
@@ -496,12 +500,12 @@ theorem rep_head {env : Env} (ok : EnvOK env) {st : ItState} (hrep : Rep env st)
     obtain ⟨f1, f2, _, _⟩ := suffix_facts (ok.tiles _ hd) hpre
     exact ⟨tr, rest, rfl, f1, f2⟩
 
-theorem itNext_spec {env : Env} (ok : EnvOK env) (hb : BoundOK env) (stop : Int) (st : ItState) (hrep : Rep env st) :
+theorem itNext_spec {env : Env} (ok : EnvOK env) (stop : Int) (st : ItState) (hrep : Rep env st) :
     ∃ tr rest st', st.sched = tr :: rest
       ∧ ConsumePost env (instDay stop) st.date tr.kind st st'
       ∧ itNext env stop st = .ok (some (⟨st.cursor, reported env st.cursor (min stop st'.cursor), tr.kind, tr.comments⟩, st')) := by
   obtain ⟨tr, rest, hs, f1, f2⟩ := rep_head ok hrep
-  obtain ⟨st', hc, post⟩ := consume_spec ok hb (instDay stop) st.date tr.kind st hrep
+  obtain ⟨st', hc, post⟩ := consume_spec ok (instDay stop) st.date tr.kind st hrep
   refine ⟨tr, rest, st', hs, post, ?_⟩
   have hcm : clockMinute tr.s = .ok tr.s := by simp [clockMinute]; omega
   have hcur : st.cursor = mkInstant st.date tr.s := by simp [ItState.cursor, hs]
@@ -531,9 +535,6 @@ theorem itNext_spec {env : Env} (ok : EnvOK env) (hb : BoundOK env) (stop : Int)
 
 theorem itNext_nil (env : Env) (stop : Int) {st : ItState} (h : st.sched = []) : itNext env stop st = .ok none := by
   simp only [itNext, h]
-
-theorem boundOK_of_none {env : Env} (h : env.bound = none) : BoundOK env := by
-  intro b hb; rw [h] at hb; cases hb
 
 theorem not_cut_of_none {env : Env} (h : env.bound = none) (a b : Int) : ¬ Cut env a b := by
   rintro ⟨x, hx, _⟩; rw [h] at hx; cases hx
@@ -575,7 +576,7 @@ theorem itNext_none {env : Env} (ok : EnvOK env) (hbn : env.bound = none) {stop 
       ∧ (∀ t, st.cursor ≤ t → t < min stop st'.cursor → pointKind env t = tr.kind)
       ∧ itMeasure (instDay stop) st' < itMeasure (instDay stop) st
       ∧ ((st'.sched = [] ∧ stop ≤ st'.cursor) ∨ (Rep env st' ∧ ∀ r rs, st'.sched = r :: rs → r.kind ≠ tr.kind)) := by
-  obtain ⟨tr, rest, st', hs, post, hn⟩ := itNext_spec ok (boundOK_of_none hbn) stop st hrep
+  obtain ⟨tr, rest, st', hs, post, hn⟩ := itNext_spec ok stop st hrep
   have hp := post.prog ⟨tr, rest, hs, rfl⟩ (not_cut_of_none hbn _ _)
   refine ⟨tr, rest, st', hs, ?_, hp.1, ?_, measure_lt _ hrep.1 (rep_length_le ok hrep) hp.2, ?_⟩
   · rw [hn]; simp only [reported, hbn]
@@ -697,22 +698,23 @@ theorem firstIntervalG_empty {env : Env} (ok : EnvOK env) {frm to : Int} (h : mi
 
 /-- First interval of the stream from `frm` (already clipped: `frm < to ≤ instEnd`).  `s` is the start of
 the schedule range containing `frm` (same day), `c` the cursor after `consume_until_next_kind`. -/
-theorem first_spec {env : Env} (ok : EnvOK env) (hb : BoundOK env) {frm to : Int} (hft : frm < to) (hto : to ≤ instEnd) :
+theorem first_spec {env : Env} (ok : EnvOK env) {frm to : Int} (hft : frm < to) (hto : to ≤ instEnd) :
     ∃ (s c : Int) (tr : TimeRange),
       firstIntervalG env frm to = .ok (some ⟨frm, min (reported env s (min to c)) to, tr.kind, tr.comments⟩)
       ∧ pointRange env frm = some tr
-      ∧ s ≤ frm ∧ frm < s + nsPerDay ∧ frm < c
+      ∧ (instDay frm * nsPerDay ≤ s ∧ s ≤ frm) ∧ frm < s + nsPerDay ∧ frm < c
       ∧ (∀ t, frm ≤ t → t < c → t < instEnd → pointKind env t = tr.kind)
-      ∧ (to ≤ c ∨ (c < instEnd ∧ (pointKind env c ≠ tr.kind ∨ ∃ b, env.bound = some b ∧ c - s > b))) := by
+      ∧ (to ≤ c ∨ (c < instEnd ∧ (pointKind env c ≠ tr.kind
+            ∨ ∃ b, env.bound = some b ∧ c - s > boundLimit b - nsPerDay))) := by
   obtain ⟨st, hnew, hrep, hdate, hc1, hc2⟩ := itNew_spec ok hft hto
-  obtain ⟨tr, rest, st', hs, post, hn⟩ := itNext_spec ok hb to st hrep
-  have hp := post.prog ⟨tr, rest, hs, rfl⟩ (not_cut_self hb _)
+  obtain ⟨tr, rest, st', hs, post, hn⟩ := itNext_spec ok to st hrep
+  have hp := post.prog ⟨tr, rest, hs, rfl⟩ (not_cut_self env _)
   obtain ⟨hd, _, pre, hpre⟩ := hrep
   rw [hs] at hpre
   obtain ⟨f1, f2, _, _⟩ := suffix_facts (ok.tiles _ hd) hpre
   have hcur : st.cursor = mkInstant st.date tr.s := by simp [ItState.cursor, hs]
   have hhe : st.headEnd = mkInstant st.date tr.e := by simp [ItState.headEnd, hs]
-  refine ⟨st.cursor, st'.cursor, tr, ?_, ?_, hc1, ?_, by omega, ?_, ?_⟩
+  refine ⟨st.cursor, st'.cursor, tr, ?_, ?_, ⟨?_, hc1⟩, ?_, by omega, ?_, ?_⟩
   · rw [firstIntervalG_clip]
     have h1 : min instEnd frm = frm := by omega
     have h2 : min instEnd to = to := by omega
@@ -720,6 +722,7 @@ theorem first_spec {env : Env} (ok : EnvOK env) (hb : BoundOK env) {frm to : Int
     have h4 : max st.cursor frm = frm := by omega
     simp only [firstIntervalG, h1, h2, hnew, hn, h3, if_false, h4]
   · exact pointRange_in ok hd hpre (by omega) (by omega)
+  · rw [hcur, ← hdate]; simp only [mkInstant, nsPerDay, nsPerMin]; omega
   · rw [hhe] at hc2; rw [hcur]
     simp only [mkInstant, nsPerDay, nsPerMin] at *; omega
   · intro t h1 h2 h3; exact post.const t (by omega) h2 h3
@@ -740,6 +743,7 @@ theorem first_spec {env : Env} (ok : EnvOK env) (hb : BoundOK env) {frm to : Int
         rw [this]; exact h2 tr' rest' hs'
       · refine Or.inr ⟨b, hb1, ?_⟩
         rw [hcur', hcur]
+        generalize boundLimit b = L at hb2 ⊢
         simp only [mkInstant, nsPerDay, nsPerMin] at *; omega
 
 /-! ## Consequences of `Runs` (list-level reading of the stream property) -/
@@ -960,20 +964,26 @@ theorem nextChange_eq_nextChangeG (ctx : Ctx) (e : Expr) (t : Int) :
 theorem pointKind_of_range {env : Env} {t : Int} {tr : TimeRange} (h : pointRange env t = some tr) :
     pointKind env t = tr.kind := by simp [pointKind, h]
 
-theorem stateG_spec {env : Env} (ok : EnvOK env) (hb : BoundOK env) {t : Int} (hrep : t + nsPerMin ≤ instMax) :
+/-- `state`: whatever the bound, and for every instant (the former `t + 1 minute` overflow is gone:
+below `instEnd` it cannot overflow, from `instEnd` on the function returns early) -/
+theorem stateG_spec {env : Env} (ok : EnvOK env) (t : Int) :
     (t < instEnd → stateG env t = .ok (pointKind env t)) ∧ (instEnd ≤ t → stateG env t = .ok .closed) := by
-  have _ := hrep
   constructor
   · intro hlt
     have hn : ¬ (t ≥ instEnd) := by omega
     have h1 : min instEnd t = t := by omega
     have h2 : t < min instEnd (t + nsPerMin) := by simp only [nsPerMin]; omega
-    obtain ⟨s, c, tr, hf, hr, _⟩ := first_spec ok hb h2 (Int.min_le_left _ _)
+    obtain ⟨s, c, tr, hf, hr, _⟩ := first_spec ok h2 (Int.min_le_left _ _)
     simp only [stateG, hn, if_false]
     rw [firstIntervalG_clip, h1, hf, pointKind_of_range hr]
   · intro hge
     have hn : t ≥ instEnd := hge
     simp only [stateG, hn, if_true]
+
+/-- below `instEnd` the one-minute window of `state` is representable (no overflow site left) -/
+theorem state_window_representable {t : Int} (h : t < instEnd) : t + nsPerMin ≤ instMax := by
+  have h1 := dateEnd_lt_maxDay
+  simp only [instEnd_eq, instMax, nsPerDay, nsPerMin] at *; omega
 
 /-- `next_change` never reports an instant at or beyond `instEnd` — for ANY day level and bound -/
 theorem nextChangeG_lt_end (env : Env) (t c : Int) (h : nextChangeG env t = .ok (some c)) : c < instEnd := by
@@ -992,7 +1002,7 @@ theorem nextChangeG_after_end {env : Env} (ok : EnvOK env) {t : Int} (h : instEn
 /-- without a bound, `next_change` is the exact next change -/
 theorem nextChangeG_exact {env : Env} (ok : EnvOK env) (hbn : env.bound = none) {t : Int} (hlt : t < instEnd) :
     ∃ x, nextChangeG env t = .ok x ∧ IsNextChange env t x := by
-  obtain ⟨s, c, tr, hf, hr, h1, h2, h3, h4, h5⟩ := first_spec ok (boundOK_of_none hbn) hlt (Int.le_refl _)
+  obtain ⟨s, c, tr, hf, hr, h1, h2, h3, h4, h5⟩ := first_spec ok hlt (Int.le_refl _)
   have hk := pointKind_of_range hr
   simp only [reported, hbn] at hf
   by_cases hc : instEnd ≤ c
@@ -1008,15 +1018,39 @@ theorem nextChangeG_exact {env : Env} (ok : EnvOK env) (hbn : env.bound = none) 
       · exact ⟨h3, h5, fun u hu1 hu2 => by rw [hk]; exact h4 u hu1 hu2 (by omega), by rw [hk]; exact h6⟩
       · rw [hbn] at hb; cases hb
 
-/-- with a bound `B`: the answer is the exact one or `none`, as C16 says (`x` is the exact answer) -/
-theorem nextChangeG_bounded {env : Env} (ok : EnvOK env) (hb : BoundOK env) {B : Int} (hB : env.bound = some B)
-    {t : Int} (hlt : t < instEnd) {x : Option Int} (hx : IsNextChange env t x) :
+theorem minDay_eq : minDay = -95746129 := by decide
+
+/-- When the loop test of `consume_until_next_kind` stopped the run at cursor `c` (`c − s > limit − 1 day`),
+the test of `next` (`end − start > B`, raw bound) fires too.  For `B < 0` trivially; for `B ≥ 0` because the
+limit is `B + 1 day` — or, if that overflowed `TimeDelta` and saturated, because no two representable
+instants before `instEnd` are `TimeDelta::MAX − 1 day` apart (`hfit`: one of the two; the second
+alternative holds for every `NaiveDateTime`). -/
+theorem cut_far {B s c t : Int} (hfit : B + nsPerDay ≤ deltaMax ∨ instMin ≤ t)
+    (hs : instDay t * nsPerDay ≤ s) (hst : s ≤ t) (htc : t < c) (hc : c < instEnd)
+    (h : c - s > boundLimit B - nsPerDay) : c - s > B := by
+  by_cases hB0 : B < 0
+  · omega
+  · by_cases hov : max B 0 + nsPerDay ≤ deltaMax
+    · rw [boundLimit_eq hov] at h; omega
+    · rw [boundLimit_sat hov] at h
+      rcases hfit with hfit | hfit
+      · omega
+      · have e1 := dateEnd_eq
+        have e2 := minDay_eq
+        simp only [instEnd_eq, instMin, instDay, deltaMax, nsPerDay] at *
+        omega
+
+/-- with a bound `B` — ANY `B`, negative or huge — the answer is the exact one or `none`, as C16 says
+(`x` is the exact answer) -/
+theorem nextChangeG_bounded {env : Env} (ok : EnvOK env) {B : Int} (hB : env.bound = some B)
+    {t : Int} (hfit : B + nsPerDay ≤ deltaMax ∨ instMin ≤ t)
+    (hlt : t < instEnd) {x : Option Int} (hx : IsNextChange env t x) :
     ∃ y, nextChangeG env t = .ok y
       ∧ (y = x ∨ y = none)
       ∧ (∀ c, x = some c → c - t ≤ B - nsPerDay → y = x)
       ∧ (∀ c, x = some c → c - t > B → y = none)
       ∧ (x = none → y = none) := by
-  obtain ⟨s, c, tr, hf, hr, h1, h2, h3, h4, h5⟩ := first_spec ok hb hlt (Int.le_refl _)
+  obtain ⟨s, c, tr, hf, hr, ⟨h0, h1⟩, h2, h3, h4, h5⟩ := first_spec ok hlt (Int.le_refl _)
   have hk := pointKind_of_range hr
   simp only [reported, hB] at hf
   by_cases hc : instEnd ≤ c
@@ -1052,6 +1086,7 @@ theorem nextChangeG_bounded {env : Env} (ok : EnvOK env) (hb : BoundOK env) {B :
         · intro c0 h0 hgt0; cases h0; omega
     · -- stopped by the bound test of the loop
       rw [hB] at hb1; cases hb1
+      have hb2 : c - s > B := cut_far hfit h0 h1 h3 hc' hb2
       refine ⟨none, hcut hb2, Or.inr rfl, ?_, fun _ _ _ => rfl, fun _ => rfl⟩
       intro c0 h0 hle
       subst h0
@@ -1059,6 +1094,27 @@ theorem nextChangeG_bounded {env : Env} (ok : EnvOK env) (hb : BoundOK env) {B :
       by_cases hlt0 : c0 < c
       · exact absurd (by rw [hk]; exact h4 c0 (by omega) hlt0 a2) a4
       · omega
+
+/-- a NEGATIVE bound: `end − start > B` always holds, so every item is reported as `start..DATE_END`
+(clipped to the window end); in particular the first one -/
+theorem firstIntervalG_negative_bound {env : Env} (ok : EnvOK env) {B : Int} (hB : env.bound = some B) (hneg : B < 0)
+    {frm to : Int} (hft : frm < to) (hto : to ≤ instEnd) :
+    firstIntervalG env frm to = .ok (some ⟨frm, to, pointKind env frm, pointComments env frm⟩) := by
+  obtain ⟨s, c, tr, hf, hr, ⟨_, h1⟩, h2, h3, _, _⟩ := first_spec ok hft hto
+  have hk := pointKind_of_range hr
+  have hcm : pointComments env frm = tr.comments := by simp [pointComments, hr]
+  simp only [reported, hB] at hf
+  rw [if_pos (by omega)] at hf
+  have : min instEnd to = to := by omega
+  rw [hf, hk, hcm, this]
+
+/-- …hence `next_change` is `none` for every instant -/
+theorem nextChangeG_negative_bound {env : Env} (ok : EnvOK env) {B : Int} (hB : env.bound = some B) (hneg : B < 0)
+    (t : Int) : nextChangeG env t = .ok none := by
+  by_cases hlt : t < instEnd
+  · simp only [nextChangeG, firstIntervalG_negative_bound ok hB hneg hlt (Int.le_refl _)]
+    rw [if_pos (Int.le_refl _)]
+  · exact nextChangeG_after_end ok (by omega)
 
 /-! ## Clipping holds for any day level (C08) -/
 
@@ -1083,49 +1139,49 @@ theorem collect_clip (env : Env) (frm to : Int) (st : ItState) (acc : List Inter
 
 /-! ## Totality with a bound: no panic, and the progress check of `collect` never fires -/
 
-theorem itNext_progress {env : Env} (ok : EnvOK env) (hb : BoundOK env) (stop : Int) (st : ItState) (hrep : Rep env st) :
+theorem itNext_progress {env : Env} (ok : EnvOK env) (stop : Int) (st : ItState) (hrep : Rep env st) :
     ∃ iv st', itNext env stop st = .ok (some (iv, st'))
       ∧ itMeasure (instDay stop) st' < itMeasure (instDay stop) st ∧ (st'.sched = [] ∨ Rep env st') := by
-  obtain ⟨tr, rest, st', hs, post, hn⟩ := itNext_spec ok hb stop st hrep
-  have hp := post.prog ⟨tr, rest, hs, rfl⟩ (not_cut_self hb _)
+  obtain ⟨tr, rest, st', hs, post, hn⟩ := itNext_spec ok stop st hrep
+  have hp := post.prog ⟨tr, rest, hs, rfl⟩ (not_cut_self env _)
   refine ⟨_, st', hn, measure_lt _ hrep.1 (rep_length_le ok hrep) hp.2, ?_⟩
   rcases post.fin with ⟨h, _⟩ | ⟨h, _⟩
   · exact Or.inl h
   · exact Or.inr h
 
-theorem collect_total {env : Env} (ok : EnvOK env) (hb : BoundOK env) (frm to : Int) (st : ItState)
+theorem collect_total {env : Env} (ok : EnvOK env) (frm to : Int) (st : ItState)
     (acc : List Interval) (h : st.sched = [] ∨ Rep env st) : ∃ out, collect env frm to st acc = .ok out := by
   fun_induction collect env frm to st acc with
   | case1 st acc p hn =>
     rcases h with h | h
     · rw [itNext_nil env to h] at hn; cases hn
-    · obtain ⟨iv, st', hn', _⟩ := itNext_progress ok hb to st h
+    · obtain ⟨iv, st', hn', _⟩ := itNext_progress ok to st h
       rw [hn'] at hn; cases hn
   | case2 st acc hn => exact ⟨_, rfl⟩
   | case3 st acc iv st' hn hge => exact ⟨_, rfl⟩
   | case4 st acc iv st' hn hlt hm ih =>
     rcases h with h | h
     · rw [itNext_nil env to h] at hn; cases hn
-    · obtain ⟨iv', st'', hn', _, hfin⟩ := itNext_progress ok hb to st h
+    · obtain ⟨iv', st'', hn', _, hfin⟩ := itNext_progress ok to st h
       rw [hn'] at hn; cases hn
       exact ih hfin
   | case5 st acc iv st' hn hlt hnm =>
     rcases h with h | h
     · rw [itNext_nil env to h] at hn; cases hn
-    · obtain ⟨iv', st'', hn', hm, _⟩ := itNext_progress ok hb to st h
+    · obtain ⟨iv', st'', hn', hm, _⟩ := itNext_progress ok to st h
       rw [hn'] at hn; cases hn
       exact absurd hm hnm
 
-/-- with any bound in `BoundOK` (in particular any `B ≥ 0` below `TimeDelta::MAX − 1 day`) the stream is
-finite and nothing panics -/
-theorem iterRangeG_total {env : Env} (ok : EnvOK env) (hb : BoundOK env) (frm to : Int) :
+/-- with ANY bound (none, negative, zero, up to and beyond `TimeDelta::MAX`) the stream is finite and
+nothing panics -/
+theorem iterRangeG_total {env : Env} (ok : EnvOK env) (frm to : Int) :
     ∃ out, iterRangeG env frm to = .ok out := by
   simp only [iterRangeG]
   by_cases hlt : min instEnd frm < min instEnd to
   · obtain ⟨st, hnew, hrep, _⟩ := itNew_spec ok hlt (Int.min_le_left _ _)
-    rw [hnew]; exact collect_total ok hb _ _ st [] (Or.inr hrep)
+    rw [hnew]; exact collect_total ok _ _ st [] (Or.inr hrep)
   · rw [itNew_empty ok (by omega) (Int.min_le_left _ _)]
-    exact collect_total ok hb _ _ _ [] (Or.inl rfl)
+    exact collect_total ok _ _ _ [] (Or.inl rfl)
 
 /-! ## `firstIntervalG` is the head of the stream (any day level, any bound) -/
 
@@ -1162,66 +1218,17 @@ theorem firstIntervalG_eq_head (env : Env) (frm to : Int) {out : List Interval}
           rw [hl]; simp
         · cases h
 
-/-! ## Bounds outside `BoundOK` -/
+/-! ## Extreme bounds
 
-/-- a bound below −1 day makes `consume_until_next_kind` return at once -/
-theorem consume_cut_at_once {env : Env} {b : Int} (hB : env.bound = some b) (h1 : b + nsPerDay < 0)
-    (h2 : -deltaMax ≤ b + nsPerDay) (endDay : Int) (st : ItState) {tr : TimeRange} {rest : List TimeRange}
-    (hs : st.sched = tr :: rest) : consume env endDay st.date tr.kind st = .ok st := by
-  unfold consume
-  split
-  · rename_i h; simp [hs] at h
-  · rename_i tr' rest' h
-    rw [hs] at h; cases h
-    have h3 : ¬ (b + nsPerDay > deltaMax ∨ b + nsPerDay < -deltaMax) := by
-      simp only [deltaMax, nsPerDay] at *; omega
-    simp [hB, h3, h1]
-
-theorem itNext_stuck {env : Env} (ok : EnvOK env) {b : Int} (hB : env.bound = some b) (h1 : b + nsPerDay < 0)
-    (h2 : -deltaMax ≤ b + nsPerDay) (stop : Int) (st : ItState) (hrep : Rep env st) :
-    ∃ iv, itNext env stop st = .ok (some (iv, st)) ∧ iv.start = st.cursor := by
-  obtain ⟨tr, rest, hs, f1, f2⟩ := rep_head ok hrep
-  have hc := consume_cut_at_once hB h1 h2 (instDay stop) st hs
-  have hcm : clockMinute tr.s = .ok tr.s := by simp [clockMinute]; omega
-  have hcur : st.cursor = mkInstant st.date tr.s := by simp [ItState.cursor, hs]
-  simp only [itNext, hs, hcm, hc, hB, hcur]
-  split <;> exact ⟨_, rfl, rfl⟩
-
-/-- A bound below −1 day: the iterator never advances, so the real `iter_range` yields the same
-interval for ever (every non-empty window); the model reports it through its progress check.
-(`state` and `next_change`, which only take the first item, still return.) -/
-theorem iterRangeG_stuck {env : Env} (ok : EnvOK env) {b : Int} (hB : env.bound = some b) (h1 : b + nsPerDay < 0)
-    (h2 : -deltaMax ≤ b + nsPerDay) {frm to : Int} (h : min instEnd frm < min instEnd to) :
-    iterRangeG env frm to = .error "model: iterator made no progress (unbounded iteration)" := by
-  obtain ⟨st, hnew, hrep, _, hc1, _⟩ := itNew_spec ok h (Int.min_le_left _ _)
-  obtain ⟨iv, hn, hiv⟩ := itNext_stuck ok hB h1 h2 (min instEnd to) st hrep
-  simp only [iterRangeG, hnew]
-  rw [collect, hn]
-  simp only [hiv]
-  rw [if_neg (by omega), dif_neg (by omega)]
-
-/-- A bound above `TimeDelta::MAX − 1 day`: `max_interval_size + TimeDelta::days(1)` overflows and
-panics in every call of `consume_until_next_kind` that looks at a range, hence in every query inside the
-supported range. -/
-theorem consume_bound_overflow {env : Env} {b : Int} (hB : env.bound = some b) (h1 : b + nsPerDay > deltaMax)
-    (endDay startDate : Int) (st : ItState) {tr : TimeRange} {rest : List TimeRange}
-    (hs : st.sched = tr :: rest) :
-    consume env endDay startDate tr.kind st = .error "opening_hours.rs:consume TimeDelta + TimeDelta overflowed" := by
-  unfold consume
-  split
-  · rename_i h; simp [hs] at h
-  · rename_i tr' rest' h
-    rw [hs] at h; cases h
-    simp [hB, h1]
-
-theorem firstIntervalG_bound_overflow {env : Env} (ok : EnvOK env) {b : Int} (hB : env.bound = some b)
-    (h1 : b + nsPerDay > deltaMax) {frm to : Int} (h : min instEnd frm < min instEnd to) :
-    firstIntervalG env frm to = .error "opening_hours.rs:consume TimeDelta + TimeDelta overflowed" := by
-  obtain ⟨st, hnew, hrep, _, hc1, _⟩ := itNew_spec ok h (Int.min_le_left _ _)
-  obtain ⟨tr, rest, hs, f1, f2⟩ := rep_head ok hrep
-  have hc := consume_bound_overflow hB h1 (instDay (min instEnd to)) st.date st hs
-  have hcm : clockMinute tr.s = .ok tr.s := by simp [clockMinute]; omega
-  simp only [firstIntervalG, hnew, itNext, hs, hcm, hc]
+History: in the original code the loop test was `curr_date − start_date > max_interval_size + TimeDelta::days(1)`.
+A bound below −1 day made it fire before anything was consumed (`iter_range` yielded the same item for ever;
+former theorem `iterRangeG_stuck`), a bound above `TimeDelta::MAX − 1 day` made the addition panic in every
+query (former theorem `firstIntervalG_bound_overflow`).  Repaired in the repository ("fix: an interval-size
+bound below -1 day or close to TimeDelta::MAX must not hang or panic"): the limit is now `boundLimit b`
+= `max(b, 0) + 1 day` saturating at `TimeDelta::MAX`, which is `≥ 1 day` for every `b`
+(`boundLimit_ge_day`), so the first range is always consumed (`not_cut_self`) and nothing can overflow.
+The positive replacements are `iterRangeG_total` (all bounds), `nextChangeG_bounded` (all bounds) and
+`firstIntervalG_negative_bound` / `nextChangeG_negative_bound`. -/
 
 /-! ## Witnesses for the non-vacuity examples of `OH/Props/C02A.lean` -/
 
